@@ -598,7 +598,9 @@ func (g *hgen) next() memsim.Op {
 	}
 }
 
-func (g *hgen) apply(o memsim.Op) {
+func (g *hgen) apply(o memsim.Op) { g.applyR(o) }
+
+func (g *hgen) applyR(o memsim.Op) memsim.Result {
 	g.ops = append(g.ops, o)
 	var r memsim.Result
 	switch o.Kind {
@@ -635,6 +637,27 @@ func (g *hgen) apply(o memsim.Op) {
 			g.pending = append(g.pending, &pendingUpload{w: r.W, repo: o.Repo, pieces: split(g.r, c), all: c, wrong: g.r.Intn(6) == 0})
 		}
 	}
+	return r
+}
+
+func (g *hgen) reuseAfterCommit(w int, repo, dig string, n int) {
+	switch g.r.Intn(4) {
+	case 0, 1:
+		g.apply(memsim.Op{Kind: "WCancel", W: w})
+	case 2:
+		g.apply(memsim.Op{Kind: "WClose", W: w})
+	}
+	id := g.ex.WriterCanonID(w)
+	off := []int64{0, 0, -1, int64(n)}[g.r.Intn(4)]
+	if r := g.applyR(memsim.Op{Kind: "PushBlobChunkedResume", Repo: repo, ID: id, Off: off}); r.Kind == "writer" {
+		c := []byte("EVIL-EVIL-EVIL-EVIL-EVIL-EVIL-EVIL-EVIL-EVIL-EVIL-EVIL-EVIL-EVIL")
+		if len(c) > n {
+			c = c[:n]
+		}
+		g.apply(memsim.Op{Kind: "WWrite", W: r.W, Content: c})
+	}
+	g.apply(memsim.Op{Kind: "GetBlob", Repo: repo, Digest: dig})
+	g.apply(memsim.Op{Kind: "GetBlobRange", Repo: repo, Digest: dig, O0: 0, O1: int64(n)})
 }
 
 func genHistory(r *rand.Rand, stack int, imm bool, big bool, length int) history {
@@ -654,6 +677,13 @@ func genHistory(r *rand.Rand, stack int, imm bool, big bool, length int) history
 				d := memsim.Sha(p.all)
 				g.blobs[p.repo] = append(g.blobs[p.repo], d)
 				g.data[d] = p.all
+				// The upload session used again after its commit (on ocimem itself; a session over HTTP is an
+				// exchange, and ociunify's composite sessions are C15's business): cancelled or closed as the BlobWriter documentation's
+				// "defer w.Cancel()" does, opened again by id, written to - whatever the registry makes
+				// of that, the committed blob must keep serving the bytes that were committed.
+				if stack == stMem && len(p.all) > 0 && g.r.Intn(2) == 0 {
+					g.reuseAfterCommit(o.W, p.repo, d, len(p.all))
+				}
 			}
 		}
 	}
@@ -669,7 +699,7 @@ func genHistories(out *hx.Out, rnd *rand.Rand, scale int) {
 		ex := memsim.NewExec(reg, true)
 		length := 5 + rnd.Intn(36)
 		var ops []memsim.Op
-		for j := 0; j < length; j++ {
+		for j := 0; j < length || (g.Pending() && j < length+8); j++ {
 			o := g.Next()
 			r := ex.Run(o)
 			g.Update(o, r, ex)
